@@ -19,7 +19,7 @@ import anyio
 
 from ..explore import execute, new_summary, run_main_asyncio
 
-SHAPES = ("one", "two-same", "two-diff", "sub-adds", "sub-inherits", "sub-overrides", "slots", "value-equal", "three", "falsy", "mangled")
+SHAPES = ("one", "two-same", "two-diff", "sub-adds", "sub-inherits", "sub-overrides", "slots", "value-equal", "three", "falsy", "mangled", "nonreflexive", "base-event")
 
 
 def build_shape(shape: str) -> tuple[list[type], dict]:
@@ -116,6 +116,28 @@ def build_shape(shape: str) -> tuple[list[type], dict]:
         C.sig = Signal(E1)  # a dataclass field default would be copied; declare the signal on the class itself
         C.sig.__set_name__(C, "sig")
         return [C], {C: {"sig": E1}}
+    if shape == "nonreflexive":
+        class C:  # type: ignore[no-redef]
+            """an owner that is not even equal to itself (a value object holding a NaN): still one owner per instance"""
+
+            sig_a = Signal(E1)
+            sig_b = Signal(E2)
+
+            def __eq__(self, other: object) -> bool:
+                return False
+
+            def __hash__(self) -> int:
+                return id(self)
+
+        return [C], {C: {"sig_a": E1, "sig_b": E2}}
+    if shape == "base-event":
+        class C:  # type: ignore[no-redef]
+            """a catch-all channel declared for the base Event class next to a specific one"""
+
+            anything = Signal(Event)
+            specific = Signal(E1)
+
+        return [C], {C: {"anything": Event, "specific": E1}}
     raise AssertionError(shape)
 
 
